@@ -150,9 +150,17 @@ def bounded(ctx):
             if o in ov or gen.rc(o) in ov or gen.rc(o) == o:
                 continue
             ov.append(o)
-        targets = [ba.clean(rng, 7, e), ba.clean(rng, 6, e)]
-        mtexts = [ba.build_module(e, ov[i], targets[i], ov[i + 1], rng, backbone=9) for i in range(2)]
-        vtext, vfrag = ba.build_vector(e, ov[2], ov[0], rng, placeholder=5, backbone=9)
+        targets, mtexts = [], []
+        for i in range(2):
+            text = None
+            while text is None:
+                t_ = ba.clean(rng, 7 - i, e)
+                text = ba.build_module(e, ov[i], t_, ov[i + 1], rng, backbone=9)
+            targets.append(t_)
+            mtexts.append(text)
+        vtext, vfrag = None, None
+        while vtext is None:
+            vtext, vfrag = ba.build_vector(e, ov[2], ov[0], rng, placeholder=5, backbone=9)
         plasmids = []
         for i, t_ in enumerate(mtexts):
             st = t_.index(ov[i] + targets[i])
